@@ -255,9 +255,6 @@ class QuicSession:
 
         if "Initial" not in list(self.decryptors.keys()):
             self.set_initial_decryptor(dcid, False)
-        elif self.tls_session.ciphersuite == b"\x13\x03" and not self.init_keys_done:
-            self.set_initial_decryptor(dcid, True)
-            self.init_keys_done = True
 
         isserver = self.packet_isserver(packet, dcid)
 
